@@ -11,6 +11,7 @@
      io_err.enter            PE0       a transport error occurred, writer lock already released
      close.flag_set          PC1       close(): flag swapped, stream tables not yet drained
      close.before_writer     PC2       tables drained, writer not yet locked for shutdown (PC2wait: queued)
+     open.checked            PO0       open_stream: closed flag examined (it was clear), id not yet allocated
      open.registered         PO1       open_stream: id allocated and registered, SYN not yet submitted
 
    The buffer mutex and the table RwLocks are never held across an await that can block on another
@@ -55,6 +56,7 @@ Inductive pc :=
 | PW3 (k : wk) (f : frame) | PW4 (k : wk) (held : list witem)
 | PE0 (a : after) (k : wk)
 | PC1 (a : after) (k : wk) | PC2 (a : after) (k : wk) | PC2wait (a : after) (k : wk)
+| PO0
 | PO1 (sid : N).
 
 Record task := {
@@ -258,10 +260,7 @@ Definition start_call (s : state) (t : tid) (c : call) (rest : list call) : opti
       end
   | COpen =>
       if closed s then Some (finish s0 t ResClosed)
-      else
-        let sid := next_sid s in
-        let s1 := set_table s0 (sid + 1) (table s ++ [(sid, t)]) in
-        Some (set_task s1 t (with_pc (with_sid x sid) (PO1 sid)))
+      else Some (set_task s0 t (with_pc x PO0))
   | CAwait =>
       match t_sid x, t_verdict x with
       | None, _ => Some (finish s0 t ResNoStream)
@@ -324,6 +323,11 @@ Definition step (s : state) (t : tid) : option state :=
       | Some _ => Some (set_pc (set_lock s (wr s) (waiters s ++ [t])) t (PC2wait a k))
       end
   | PC2wait _ _ => None
+  | PO0 =>
+      (* the closed flag is NOT examined again: close() may have run (and drained the tables) since the check *)
+      let sid := next_sid s in
+      let s1 := set_table s (sid + 1) (table s ++ [(sid, t)]) in
+      Some (set_task s1 t (with_pc (with_sid x sid) (PO1 sid)))
   | PO1 sid => Some (set_task s t (with_pc (with_sub x (syn_frame sid)) (PW0 WkOpen (syn_frame sid))))
   end.
 
